@@ -740,12 +740,21 @@ def m_event(fe, ev):
     raise ValueError(tag)
 
 
-def m_history(fe, h):
+def m_history(fe, h, ctx=None):
+    """The history in the model's vocabulary.  An appv2 Data validator that dies (dies_v2) is a validator that never answers:
+    its 'vdone' becomes a plain passage of time, and so do the later 'vdone' events of that Interest IF the validator was
+    running when it died (the future it waited on is gone; a 'vdone' that comes before the validator was called finds
+    nothing to resume, in the driver as in the model, and a later one still counts).  Whether it was running is read off the
+    model itself (the validator invocations after the translated prefix) when [ctx] is given; without it: assumed."""
     out = []
-    dead = set()          # appv2 Interests whose suspended Data validator died: later 'vdone' events find nothing
+    dead = set()          # appv2 Interests whose Data validator died
     for e in h:
-        if e[0] == 'vdone' and (e[1] in dead or dies_v2(fe, e[2])):
-            dead.add(e[1])
+        if e[0] == 'vdone' and dies_v2(fe, e[2]):
+            if e[1] not in dead:
+                if ctx is None or any(x[0] == e[1] for x in ctx.call([1, fe_num(fe), out])[5]):
+                    dead.add(e[1])
+            out.append([e[4], [7, e[3]]])
+        elif e[0] == 'vdone' and e[1] in dead:
             out.append([e[4], [7, e[3]]])
         else:
             if e[0] == 'express' and e[6][0] == 'imm' and dies_v2(fe, e[6][1]):
@@ -759,7 +768,7 @@ def fe_num(fe):
 
 
 def run_model(ctx, fe, h):
-    a = ctx.call([1, fe_num(fe), m_history(fe, h)])
+    a = ctx.call([1, fe_num(fe), m_history(fe, h, ctx)])
     log, face_out, errs, pit_nodes, pit_entries, vcalls, refused, hcalls, ivcalls = a
     return {
         'completion': {x[0]: (tuple(x[1]), x[2]) for x in log},
@@ -777,7 +786,7 @@ def run_model(ctx, fe, h):
 
 def spec_states(ctx, fe, h, ids):
     """Specification automaton (Spec/ExpressSpec.v, extracted) on the history: id -> state tuple."""
-    a = ctx.call([2, fe_num(fe), m_history(fe, h), list(ids)])
+    a = ctx.call([2, fe_num(fe), m_history(fe, h, ctx), list(ids)])
     out = {}
     for i, x in zip(ids, a):
         out[i] = (x[0],) if x[0] in (0, 1) else ((2, x[1]) if x[0] == 2 else (3, tuple(x[1])))
